@@ -64,6 +64,133 @@ def same(a, b):
     return bool(np.array_equal(np.asarray(a), np.asarray(b)) and getattr(a, 'dtype', None) == getattr(b, 'dtype', None))
 
 
+def scan_decl(rng, n):
+    """declinations (deg): uniform in angle, uniform on the sphere, on a 1/8 degree grid, round values"""
+    which = rng.integers(0, 4, n)
+    dec = rng.uniform(-90, 90, n)
+    dec = np.where(which == 1, np.degrees(np.arcsin(rng.uniform(-1, 1, n))), dec)
+    dec = np.where(which == 2, np.round(dec * 8) / 8, dec)
+    dec = np.where(which == 3, rng.choice([0.0, 30.0, -30.0, 45.0, -45.0, 60.0, -60.0, 89.0, -89.0, 1.0, -1.0], n), dec)
+    return dec
+
+
+def small_offsets(rng, n, lo=-16.0, hi=-1.0):
+    """(d_ra, d_dec) in degrees: magnitude log-uniform over the decades 10^lo .. 10^hi, a third along RA only, a third along
+    Dec only, a third in a random direction; a few exactly zero"""
+    mag = 10.0 ** rng.uniform(lo, hi, n)
+    ang = rng.uniform(0, 2 * np.pi, n)
+    mode = rng.integers(0, 3, n)
+    dra = np.where(mode == 1, 0.0, mag * np.cos(ang))
+    ddec = np.where(mode == 0, 0.0, mag * np.sin(ang))
+    return dra, ddec
+
+
+def vector_reference_deg(a1, d1, a2, d2):
+    """independent vector formula atan2(|p x q|, p . q) in degrees (float64; absolute error ~1e-14 deg)"""
+    a1, d1, a2, d2 = [np.radians(v) for v in (a1, d1, a2, d2)]
+    p = np.array([np.cos(d1) * np.cos(a1), np.cos(d1) * np.sin(a1), np.sin(d1)])
+    q = np.array([np.cos(d2) * np.cos(a2), np.cos(d2) * np.sin(a2), np.sin(d2)])
+    c = np.cross(p.T, q.T)
+    return np.degrees(np.arctan2(np.sqrt((c * c).sum(1)), (p * q).sum(0)))
+
+
+def near_scan(j):
+    """Volume scan of gcirc around the places where the haversine argument is close to 0, 1/2 or 1 and where the RA difference is
+    close to a multiple of half a turn; displacements from the special configuration over the decades 1e-16 .. 1e-1 deg.
+    Checks on every pair: finite, within [0, 180 deg], symmetric, and equal to the vector formula (1e-6 relative + 1e-8 arcsec:
+    the reference is float64)."""
+    rng = np.random.default_rng(j['seed'])
+    n, un, kind = j['n'], j['units'], j['kind']
+    ra = rng.uniform(0, 360, n)
+    ra = np.where(rng.random(n) < 0.25, np.round(ra * 8) / 8, ra)
+    dec = scan_decl(rng, n)
+    dra, ddec = small_offsets(rng, n)
+    if kind == 'near-antipodal':
+        ra2, dec2 = ra + 180.0 + dra, -dec + ddec
+    elif kind == 'near-coincident':
+        ra2, dec2 = ra + dra, dec + ddec
+    elif kind == 'near-quadrature':
+        # (ra + 180, 90 - dec) is exactly 90 degrees from (ra, dec) for dec >= 0 (over the pole)
+        sg = np.where(dec < 0, -1.0, 1.0)
+        ra2, dec2 = ra + 180.0 + dra, sg * (90.0 - np.abs(dec)) + ddec
+    elif kind == 'ra-multiples':
+        # RA difference close to m half turns, m = -4 .. 4: near coincident for even m, near antipodal for odd m
+        m = rng.integers(-4, 5, n)
+        ra2, dec2 = ra + 180.0 * m + dra, np.where(m % 2 == 0, dec, -dec) + ddec
+    elif kind == 'near-pole':
+        # both points within 10^-16 .. 1 deg of a pole (or exactly on it), the same pole or opposite poles
+        e1 = np.where(rng.random(n) < 0.2, 0.0, 10.0 ** rng.uniform(-16, 0, n))
+        e2 = np.where(rng.random(n) < 0.2, 0.0, 10.0 ** rng.uniform(-16, 0, n))
+        s1 = rng.choice([1.0, -1.0], n)
+        s2 = np.where(rng.random(n) < 0.5, s1, -s1)
+        dec, dec2 = s1 * (90.0 - e1), s2 * (90.0 - e2)
+        ra2 = np.where(rng.random(n) < 0.5, ra + 180.0 + dra, rng.uniform(0, 360, n))
+    elif kind == 'near-equator':
+        dec = np.where(rng.random(n) < 0.3, 0.0, rng.choice([1.0, -1.0], n) * 10.0 ** rng.uniform(-16, -1, n))
+        m = rng.integers(0, 3, n)
+        ra2, dec2 = ra + 180.0 * m + dra, np.where(m == 1, -dec, dec) + ddec
+    else:
+        return {'err': 'BadJob'}
+    dec2 = np.clip(dec2, -90.0, 90.0)
+    wrap = rng.random(n)
+    ra2 = np.where((wrap < 0.3) & (ra2 >= 360.0), ra2 - 360.0, ra2)
+    a = [ra, dec, ra2, dec2]
+    if un == 0:
+        a = [np.deg2rad(x) for x in a]
+    elif un == 1:
+        a = [a[0] / 15.0, a[1], a[2] / 15.0, a[3]]
+    keep = [x.copy() for x in a]
+    with np.errstate(all='ignore'):
+        d = gcirc(*a, units=un)
+        dswap = gcirc(a[2], a[3], a[0], a[1], units=un)
+    unchanged = all(np.array_equal(x, y) for x, y in zip(a, keep))
+    # reference from the numbers actually passed
+    if un == 0:
+        b = [np.degrees(x) for x in a]
+    elif un == 1:
+        b = [a[0] * 15.0, a[1], a[2] * 15.0, a[3]]
+    else:
+        b = a
+    ref = vector_reference_deg(*b)
+    top = math.pi if un == 0 else 648000.0
+    to_deg = 180.0 / math.pi if un == 0 else 1.0 / 3600.0
+    floor = 1e-8 / 3600.0                      # degrees (the reference is float64: radians of ~1000 deg carry ~4e-10 arcsec)
+    ddeg = d * to_deg
+    fin = np.isfinite(d) & np.isfinite(dswap)
+    masks = {
+        'nan': ~fin,
+        'range': fin & ((d < 0) | (d > top * (1 + 1e-12))),
+        'accuracy': fin & (np.abs(ddeg - ref) > 1e-6 * ref + floor),
+        'symmetry': fin & (np.abs(d - dswap) * to_deg > 1e-6 * ref + floor),
+    }
+    # the same pairs through scalar calls (a sample, the failures of the array call first)
+    idx = list(np.flatnonzero(masks['nan'])[:8]) + list(rng.integers(0, n, 48))
+    scalar_bad = []
+    with np.errstate(all='ignore'):
+        for i in idx:
+            s = float(gcirc(float(a[0][i]), float(a[1][i]), float(a[2][i]), float(a[3][i]), units=un))
+            if not (math.isfinite(s) and 0 <= s <= top * (1 + 1e-12) and abs(s * to_deg - ref[i]) <= 1e-6 * ref[i] + floor):
+                scalar_bad.append(int(i))
+    out = {'n': int(n), 'scalar_calls': len(idx), 'input_unchanged': bool(unchanged), 'counts': {}, 'examples': {}}
+    for what, mk in masks.items():
+        bad = np.flatnonzero(mk)
+        out['counts'][what] = int(bad.size)
+        if bad.size:
+            i = int(bad[0])
+            out['examples'][what] = {'input': [float(x[i]) for x in a], 'gcirc': fl(d[i]), 'swapped': fl(dswap[i]),
+                                     'reference_deg': float(ref[i])}
+    out['counts']['scalar'] = len(scalar_bad)
+    if scalar_bad:
+        i = scalar_bad[0]
+        with np.errstate(all='ignore'):
+            s = gcirc(float(a[0][i]), float(a[1][i]), float(a[2][i]), float(a[3][i]), units=un)
+        out['examples']['scalar'] = {'input': [float(x[i]) for x in a], 'gcirc': fl(s), 'array_call': fl(d[i]),
+                                     'reference_deg': float(ref[i])}
+    # how close to the special configuration the scan actually went (evidence)
+    out['min_ref_deg'], out['max_ref_deg'] = float(ref.min()), float(ref.max())
+    return out
+
+
 def job(j):
     k = j['op']
     try:
@@ -160,6 +287,8 @@ def job(j):
                 ex = [float(x[idx]) for x in a] + [fl(d[idx])]
             return {'n': int(n), 'nonfinite': int(bad.size), 'out_of_range': int(oor.size), 'nonzero_coincident': nz,
                     'example': ex}
+        if k == 'gcirc_near_scan':
+            return near_scan(j)
         if k == 'gcirc_bad_units':
             try:
                 gcirc(1.0, 2.0, 3.0, 4.0, units=j['units'])
